@@ -126,7 +126,8 @@ def run(facts, rep):
     for e, p in cs:
         last = e.name.split('::')[-1]
         a = [sk(x) for x in e.args]
-        m = re.search(r'trans_mut\(&mut \*arg1, deg_trip\(arg1, arg2\)\.(\d)\)', a[0]) if a else None
+        # the transform at a neighbouring degree, through the accessor or through the map itself (a helper executed in place)
+        m = re.search(r'deg_trip\(arg1, arg2\)\.(\d)', a[0]) if (a and ('trans_mut(' in a[0] or 'arg1.trans' in a[0])) else None
         if last in ('append_perm', 'merge') and m:
             tr.setdefault(m.group(1), []).append((last, a[1]))
     tv = {'view(arg3)', 'view(arg4)', 'arg5', 'arg6'}
